@@ -260,10 +260,11 @@ SIG_PREF = ["clicked", "triggered", "windowTitleChanged", "objectNameChanged"]
 class Subject:
     """A class in a host position, with the properties the kinds will use."""
 
-    def __init__(self, cls, host):
+    def __init__(self, cls, host, sfx=""):
         self.cls = cls
         self.host = host
-        self.obj = "root" if host == "root" else "subj"
+        self.sfx = sfx
+        self.obj = "root" if host == "root" else "subj" + sfx
         props = class_props(cls)
         self.props = props
 
@@ -509,11 +510,11 @@ def special_kinds(sj, u):
                             ["@sep"], children=[qml.Obj("QAction", f"sep{k}", [sb])]))
     if sj.cls == "QGridLayout":
         b = qml.B("columns", "1")
-        out.append(KindInst("grid-columns", [b], [Leaf("grid-columns", b, sj.obj, False, ui=("cell", "c1", "1", "0"))], ["columns"]))
+        out.append(KindInst("grid-columns", [b], [Leaf("grid-columns", b, sj.obj, False, ui=("cell", "c1" + sj.sfx, "1", "0"))], ["columns"]))
         bf, brw = qml.B("flow", "QGridLayout.TopToBottom"), qml.B("rows", "1")
         out.append(KindInst("grid-flow-rows", [bf, brw],
-                            [Leaf("grid-flow", bf, sj.obj, False, ui=("cell", "c1", "0", "1")),
-                             Leaf("grid-rows", brw, sj.obj, False, ui=("cell", "c1", "0", "1"))], ["columns", "flow", "rows"]))
+                            [Leaf("grid-flow", bf, sj.obj, False, ui=("cell", "c1" + sj.sfx, "0", "1")),
+                             Leaf("grid-rows", brw, sj.obj, False, ui=("cell", "c1" + sj.sfx, "0", "1"))], ["columns", "flow", "rows"]))
         src, _x, shown = val_int(u, True)
         b = qml.B("columns", src)
         out.append(KindInst("grid-columns-dyn", [b], [Leaf("grid-columns-dyn", b, sj.obj, True, shown=shown, maybe=True)],
@@ -641,6 +642,8 @@ def fault_kinds(sj, u):
 
 def all_kinds(sj):
     u = Uniq()
+    if sj.sfx:
+        u.n = 500       # a second subject draws its values, ids and labels from another range
     good = scalar_kinds(sj, u) + font_kinds(sj, u) + sizepolicy_kinds(sj, u) + size_kinds(sj, u) + \
         handler_kinds(sj, u) + special_kinds(sj, u)
     return good, fault_kinds(sj, u)
@@ -655,18 +658,19 @@ SUBJECTS = [
     ("QTabWidget", "plain"), ("QGroupBox", "plain"), ("QLineEdit", "layout-child"),
     ("QVBoxLayout", "layout"), ("QHBoxLayout", "layout"), ("QGridLayout", "layout"), ("QFormLayout", "layout"),
     ("QSpacerItem", "spacer"), ("QAction", "action"), ("QMenu", "plain"),
+    ("QTableView", "page"), ("QTreeView", "page"), ("QComboBox", "page"),
 ]
 QUICK_PAIR_SUBJECTS = {("QLabel", "layout-child"), ("QPushButton", "layout-child"), ("QWidget", "root"),
                        ("QVBoxLayout", "layout"), ("QGridLayout", "layout"), ("QAction", "action"),
-                       ("QTableView", "plain"), ("QWidget", "page"), ("QComboBox", "layout-child")}
+                       ("QTableView", "plain"), ("QWidget", "page"), ("QComboBox", "layout-child"), ("QTableView", "page")}
 
 
 def sources():
     return [qml.Obj("QLineEdit", "srcS"), qml.Obj("QSpinBox", "srcI"), qml.Obj("QCheckBox", "srcB"), qml.Obj("QLabel", "tgt")]
 
 
-def build_doc(sj, kinds):
-    """-> (root Obj, subject Obj)"""
+def build_doc(sj, kinds, root=None):
+    """-> (root Obj, subject Obj); with `root` given the subject's subtree is added to that document"""
     items = []
     for k in kinds:
         items += k.items
@@ -676,21 +680,23 @@ def build_doc(sj, kinds):
     if sj.host == "root":
         subj = qml.Obj(sj.cls, "root", items + sources() + kids)
         return subj, subj
-    subj = qml.Obj(sj.cls, "subj", items + kids)
-    root = qml.Obj("QWidget", "root", sources())
+    x = sj.sfx
+    subj = qml.Obj(sj.cls, "subj" + x, items + kids)
+    if root is None:
+        root = qml.Obj("QWidget", "root", sources())
     if sj.host == "plain":
         root.add(subj)
     elif sj.host == "layout-child":
-        root.add(qml.Obj("QWidget", "host", [qml.Obj("QGridLayout", "hostlay", [subj])]))
+        root.add(qml.Obj("QWidget", "host" + x, [qml.Obj("QGridLayout", "hostlay" + x, [subj])]))
     elif sj.host == "page":
-        root.add(qml.Obj("QTabWidget", "host", [subj]))
+        root.add(qml.Obj("QTabWidget", "host" + x, [subj]))
     elif sj.host == "layout":
-        subj.add(qml.Obj("QLabel", "c0"), qml.Obj("QLabel", "c1"))
-        root.add(qml.Obj("QWidget", "host", [subj]))
+        subj.add(qml.Obj("QLabel", "c0" + x), qml.Obj("QLabel", "c1" + x))
+        root.add(qml.Obj("QWidget", "host" + x, [subj]))
     elif sj.host == "spacer":
-        root.add(qml.Obj("QWidget", "host", [qml.Obj("QVBoxLayout", "hostlay", [subj])]))
+        root.add(qml.Obj("QWidget", "host" + x, [qml.Obj("QVBoxLayout", "hostlay" + x, [subj])]))
     elif sj.host == "action":
-        root.add(qml.Obj("QMenu", "host", [subj]))
+        root.add(qml.Obj("QMenu", "host" + x, [subj]))
     else:
         raise AssertionError(sj.host)
     return root, subj
@@ -728,13 +734,58 @@ def combos(tier):
                 yield si, (a, b, c), ()
 
 
-def instantiate(si, gi, fi):
+def instantiate(si, gi, fi, second=None):
     cls, host = SUBJECTS[si]
     sj = Subject(cls, host)
     good, faults = all_kinds(sj)
     kinds = [good[i] for i in gi] + [faults[j] for j in fi]
     root, subj = build_doc(sj, kinds)
+    if second:
+        si2, gi2, fi2 = second
+        cls2, host2 = SUBJECTS[si2]
+        sj2 = Subject(cls2, host2, sfx="2")
+        good2, faults2 = all_kinds(sj2)
+        kinds2 = [good2[i] for i in gi2] + [faults2[j] for j in fi2]
+        build_doc(sj2, kinds2, root=root)
+        kinds = kinds + kinds2
     return sj, kinds, root
+
+
+REPRESENTATIVE = ("const-str", "dyn-str", "dyn-bool", "const-enum", "font-mixed-braces", "font-const-dotted", "handler-expr",
+                  "sizePolicy-mixed-braces", "attached-layout-cell", "attached-tab-title", "model-const", "actions-list",
+                  "separator-dyn", "grid-columns", "horizontalHeader-const-braces", "margins-const-braces", "default-dyn",
+                  "const-int", "dyn-int")
+REPRESENTATIVE_FAULTS = ("fault:unknown-property", "fault:ill-typed-dyn-str", "fault:read-only-dynamic", "fault:duplicate",
+                         "fault:unknown-gadget-member-braces", "fault:handler-unknown-id", "fault:unknown-attached-type",
+                         "fault:ill-typed-const-int", "fault:unknown-signal")
+
+
+def tree_combos(tier):
+    """Two subjects in one document (siblings below the root, or the root itself plus one below it): one
+    representative kind each, and a representative fault at either position."""
+    keys = sorted(QUICK_PAIR_SUBJECTS) if tier == "thorough" else [("QLabel", "layout-child"), ("QWidget", "root"), ("QVBoxLayout", "layout"), ("QAction", "action")]
+    idx = [SUBJECTS.index(k) for k in keys]
+    menus = {}
+    for si in idx:
+        sj = Subject(*SUBJECTS[si])
+        good, faults = all_kinds(sj)
+        menus[si] = ([i for i, k in enumerate(good) if k.name in REPRESENTATIVE],
+                     [j for j, k in enumerate(faults) if k.name in REPRESENTATIVE_FAULTS])
+    for s1 in idx:
+        for s2 in idx:
+            if SUBJECTS[s2][1] == "root":
+                continue
+            g1, f1 = menus[s1]
+            g2, f2 = menus[s2]
+            for n, (a, b) in enumerate(itertools.product(g1, g2)):
+                if tier == "thorough" or n % 3 == 0:
+                    yield s1, (a,), (), (s2, (b,), ())
+            for n, (a, b) in enumerate(itertools.product(g1, f2)):
+                if tier == "thorough" or n % 5 == 0:
+                    yield s1, (a,), (), (s2, (), (b,))
+            for n, (a, b) in enumerate(itertools.product(f1, g2)):
+                if tier == "thorough" or n % 5 == 0:
+                    yield s1, (), (a,), (s2, (b,), ())
 
 
 def span_of(item, src_bytes):
@@ -770,14 +821,18 @@ def driver(kinds):
     VERIF_GUARD("@PID@", "body!", body()); verif::tracing() = false;"""
 
 
-def judge_static(t, vd, cid, si, gi, fi):
+WARN_IMPORTS = ("qmluic.QtWidgets 6.2",)      # "import version is ignored": a warning beside whatever else is reported
+
+
+def judge_static(t, vd, cid, si, gi, fi, second=None, warn=False):
     """Translates one document, judges everything that does not need the compiled header; returns a
     harness.Program for the behavioural part (or None)."""
-    sj, kinds, root = instantiate(si, gi, fi)
-    src = qml.render(root)
+    sj, kinds, root = instantiate(si, gi, fi, second)
+    src = qml.render(root, imports=WARN_IMPORTS) if warn else qml.render(root)
     sb = src.encode("utf-8")
     pid = f"P{cid}"
-    case = {"id": cid, "combo": [si, list(gi), list(fi)], "subject": list(SUBJECTS[si]),
+    case = {"id": cid, "combo": [si, list(gi), list(fi)] + ([[second[0], list(second[1]), list(second[2])]] if second else []),
+            "subject": list(SUBJECTS[si]), "warn": warn,
             "kinds": [k.name for k in kinds], "source": src}
     r = vd.job({"id": cid, "source": src, "modes": ["generate"], "type_name": pid})
     if r.get("crashed") or r.get("timeout") or "modes" not in r or r["modes"]["generate"].get("status") == "panic":
@@ -789,6 +844,10 @@ def judge_static(t, vd, cid, si, gi, fi):
     acc = vc.accepted(g, r.get("has_syntax_error"))
     if r.get("has_syntax_error"):
         raise vc.MachineryError("catalogue document does not parse:\n" + src)
+    if warn:
+        t.inc("documents_with_a_warning")
+        if not any(d["kind"] == "warning" for d in g.get("diagnostics", [])):
+            raise vc.MachineryError("the warning carrier produced no warning:\n" + src)
     errors = [d for d in g.get("diagnostics", []) if d["kind"] == "error"]
     faults = [k for k in kinds if k.fault]
     maybes = [k for k in kinds if k.maybe]
@@ -845,14 +904,16 @@ def judge_static(t, vd, cid, si, gi, fi):
             if l.dynamic or l.handler:
                 t.violation(f"dynamic-binding-nowhere:{l.label}", dict(case, leaf=l.label, note="no header produced"))
         return None
-    p = harness.Program(pid, g["ui"], g["header"], driver(kinds), {"case": case, "combo": (si, gi, fi)})
+    if second:
+        t.inc("two_subject_documents")
+    p = harness.Program(pid, g["ui"], g["header"], driver(kinds), {"case": case, "combo": (si, gi, fi, second)})
     return p
 
 
 def judge_run(t, p, res):
     case = p.meta["case"]
-    si, gi, fi = p.meta["combo"]
-    sj, kinds, root = instantiate(si, gi, fi)
+    si, gi, fi, second = p.meta["combo"]
+    sj, kinds, root = instantiate(si, gi, fi, second)
     qml.render(root)
     if res["compile_error"]:
         t.violation("generated-header-does-not-compile", dict(case, compile_error=res["compile_error"][-1500:]))
@@ -952,6 +1013,20 @@ def shard_work(shard, nshards, payload):
         elif cid % nshards != shard:
             continue
         p = judge_static(t, vd, cid, si, gi, fi)
+        if p is not None:
+            progs_.append(p)
+        if len(gi) + len(fi) == 1 or (tier == "thorough" and len(fi) == 1):
+            # the same document with a warning in it: a warning changes neither the ledger nor the verdict
+            p = judge_static(t, vd, 2000000 + cid, si, gi, fi, warn=True)
+            if p is not None:
+                progs_.append(p)
+    for n, (si, gi, fi, second) in enumerate(tree_combos(tier)):
+        if only is not None:
+            if [si, list(gi), list(fi), [second[0], list(second[1]), list(second[2])]] != only:
+                continue
+        elif n % nshards != shard:
+            continue
+        p = judge_static(t, vd, 1000000 + n, si, gi, fi, second)
         if p is not None:
             progs_.append(p)
     for i in range(0, len(progs_), BATCH):
@@ -1075,6 +1150,9 @@ def cli_scenarios():
     yield ("bad-last", ["GoodA", "Bad"], False, False)
     yield ("bad-middle", ["GoodA", "Bad", "GoodB"], True, False)
     yield ("bad-middle-outdir", ["GoodA", "Bad", "GoodB"], False, True)
+    yield ("single-with-warning", ["Bad"], False, False)
+    yield ("single-with-warning", ["Bad"], True, False)
+    yield ("bad-last-with-warning", ["GoodA", "Bad"], False, False)
 
 
 def cli_work(shard, nshards, payload):
@@ -1090,12 +1168,15 @@ def cli_work(shard, nshards, payload):
             if n % nshards != shard:
                 continue
             sj, kinds, root = instantiate(si, gi, fi)
-            src = qml.render(root)
+            src_plain = qml.render(root)
+            src_warn = qml.render(root, imports=WARN_IMPORTS)
             scen_list = list(cli_scenarios())
             m = n // nshards
             for sn, (name, order, stale, outdir) in enumerate(scen_list):
-                if tier != "thorough" and sn != m % len(scen_list) and name != ("bad-last" if m % 2 else "bad-middle"):
+                if tier != "thorough" and sn != m % len(scen_list) and name != ("bad-last" if m % 2 else "bad-middle") \
+                        and not (name == "single-with-warning" and not stale and m % 3 == 0):
                     continue
+                src = src_warn if name.endswith("-with-warning") else src_plain
                 d = os.path.join(scratch, f"w{cid}_{sn}")
                 os.makedirs(d)
                 for stem in order:
@@ -1155,6 +1236,7 @@ def main(tier, t0):
         "subjects": [f"{a}@{b}" for a, b in SUBJECTS],
         "documents": c.get("documents", 0), "accepted_documents": c.get("accepted_documents", 0),
         "fault_documents": c.get("fault_documents", 0),
+        "two_subject_documents_accepted": c.get("two_subject_documents", 0),
         "fault_diagnostics_inside_binding": c.get("fault_diagnostics_inside_binding", 0),
         "programs_compiled_and_run": c.get("programs_run", 0),
         "ledger": {"ui_side": c.get("leaves_ui_side", 0), "header_side": c.get("leaves_header_side", 0),
